@@ -268,6 +268,34 @@ pub fn big_inputs(win: bool) -> Vec<Vec<u8>> {
         run.extend(std::iter::repeat(sep).take(m));
         run.push(b'b');
         v.push(run);
+        if win {
+            // the same sizes as PREFIX PAYLOADS (a prefix length kept in a narrow integer, a cap on server
+            // names …): server, share, verbatim name, device, verbatim-UNC share
+            let s_ = vec![b's'; m];
+            let cat = |parts: &[&[u8]]| -> Vec<u8> { parts.concat() };
+            v.push(cat(&[br"\\", &s_, br"\share"]));
+            v.push(cat(&[br"\\", &s_, br"\share\file.txt"]));
+            v.push(cat(&[br"\\server\", &s_, br"\d"]));
+            v.push(cat(&[br"\\?\", &s_, br"\a"]));
+            v.push(cat(&[br"\\.\", &s_]));
+            v.push(cat(&[br"\\?\UNC\server\", &s_, br"\a"]));
+        }
+    }
+    v
+}
+
+/// sizes for the few dedicated single-input "giant" clauses: 2^20 + 5 always, and a little above every
+/// integer of the source that is larger than the other generators go (2^17 … 2^25: `1 << 24`, `4 << 20` …)
+pub fn giant_sizes() -> Vec<usize> {
+    let mut v = vec![(1usize << 20) + 5];
+    for m in magic_numbers() {
+        if *m > (1 << 17) {
+            for k in [*m, *m + 5] {
+                if !v.contains(&k) {
+                    v.push(k);
+                }
+            }
+        }
     }
     v
 }
